@@ -435,6 +435,7 @@ class HamiltonianChain(MarkovChain):
             "n_parameters": self.n_parameters,
             "chain_length": self.chain_length,
             "steps": self.steps,
+            "max_attempts": self.max_attempts,
             "display_progress": self.display_progress,
         }
         if self.bounds is not None:
@@ -485,6 +486,9 @@ class HamiltonianChain(MarkovChain):
         chain.n_parameters = int(D["n_parameters"])
         chain.chain_length = int(D["chain_length"])
         chain.steps = int(D["steps"])
+        # (absent from files written by earlier versions)
+        if "max_attempts" in D:
+            chain.max_attempts = int(D["max_attempts"])
 
         t = D["theta"]
         chain.theta = [t[i, :] for i in range(t.shape[0])]
